@@ -105,6 +105,13 @@ partial def parseCrit (j : Json) : Except String Crit := do
   if let .ok c := j.getObjVal? "not" then return .not (← parseCrit c)
   throw s!"bad criteria {j.compress}"
 
+def parseRange (j : Json) : Except String Range := do
+  let start ← parseValue (← j.getObjVal? "start")
+  let stop ← parseValue (← j.getObjVal? "end")
+  let si ← (← j.getObjVal? "si").getBool?
+  let ei ← (← j.getObjVal? "ei").getBool?
+  return ⟨start, stop, si, ei⟩
+
 def parseQuery (j : Json) : Except String Query := do
   let coll ← getHex j "coll"
   let crit ← match j.getObjVal? "crit" with
@@ -199,6 +206,9 @@ partial def showValue : Value → String
 partial def showDoc (d : Doc) : String :=
   "{" ++ ",".intercalate (d.map (fun (k, v) => toHex k ++ "=" ++ showValue v)) ++ "}"
 end
+
+def showRange (r : Range) : String :=
+  (if r.si then "[" else "(") ++ showValue r.start ++ ";" ++ showValue r.stop ++ (if r.ei then "]" else ")")
 
 def showErr : Err → String
   | .storeFault => "store-fault" | .collExist => "coll-exist" | .collNotExist => "coll-not-exist"
